@@ -393,7 +393,8 @@ class StructFormat(Format):
     pad_to = None
 
     def gen(self, rng, mode="rand"):
-        return self.fix(gen_struct(self.st, rng) if mode == "rand" else self.walk(rng, mode), rng)
+        walk = isinstance(mode, tuple) and mode[0] == "walk"
+        return self.fix(self.walk(rng, mode) if walk else gen_struct(self.st, rng), rng)
 
     def walk(self, rng, mode):
         # mode = ("field", value, fill)
@@ -543,7 +544,7 @@ class VpdStruct(VpdBase):
 
     def gen(self, rng, mode="rand"):
         v = self.gen_hdr(rng)
-        if mode == "rand":
+        if not (isinstance(mode, tuple) and mode[0] == "walk"):
             v.update(gen_struct(self.body, rng))
         else:
             _m, field, value, fill = mode
@@ -710,7 +711,7 @@ def gen_mode_page(rng, key=None, mode="rand"):
     p = {"ps": rng.getrandbits(1), "spf": 0 if key[1] is None else 1, "page_code": key[0]}
     if key[1] is not None:
         p["sub_page_code"] = key[1]
-    if mode == "rand":
+    if not (isinstance(mode, tuple) and mode[0] == "walk"):
         p.update(gen_struct(st, rng))
     else:
         _m, field, value, fill = mode
@@ -1140,7 +1141,7 @@ class DiscInfo(Format):
         self.st = [self.STD, self.TRK, self.POW][dtype]
 
     def gen(self, rng, mode="rand"):
-        if mode == "rand":
+        if not (isinstance(mode, tuple) and mode[0] == "walk"):
             v = gen_struct(self.st, rng)
             if self.dtype == 0 and rng.random() < 0.5:
                 v["disc_type"] = rng.choice([0x00, 0x10, 0x20, 0xFF])
